@@ -196,4 +196,43 @@ theorem rotation_preserves_norm {n : Type*} [Fintype n] [DecidableEq n]
 /-- non-vacuity / numerical anchors -/
 example : spherical (1/2) = 5/16 := by norm_num [spherical]
 example : reg1d (3/2) = -1/32 := by norm_num [reg1d]
+
+/-! ### parametric structures at the parameter values that have a closed form -/
+
+theorem powQ_pos (b : Q) (hb : 0 < b) : ∀ n : Nat, 0 < powQ b n
+  | 0 => by simp [powQ]
+  | n+1 => by simp only [powQ]; exact mul_pos hb (powQ_pos b hb n)
+
+theorem powQ_ge_one (b : Q) (hb : 1 ≤ b) : ∀ n : Nat, 1 ≤ powQ b n
+  | 0 => by simp [powQ]
+  | n+1 => by
+    simp only [powQ]
+    have := powQ_ge_one b hb n
+    nlinarith
+
+/-- `CovGamma` with an integer exponent: a correlation in `(0, 1]` -/
+theorem gamma_bounds (a : Nat) (h : Q) (h0 : 0 ≤ h) : 0 < gammaCov a h ∧ gammaCov a h ≤ 1 := by
+  unfold gammaCov
+  have hp := powQ_pos (1 + h) (by linarith) a
+  have h1 := powQ_ge_one (1 + h) (by linarith) a
+  exact ⟨by positivity, by rw [div_le_one hp]; exact h1⟩
+
+/-- `CovCauchy` with an integer exponent: a correlation in `(0, 1]` -/
+theorem cauchy_bounds (a : Nat) (h : Q) : 0 < cauchyCov a h ∧ cauchyCov a h ≤ 1 := by
+  unfold cauchyCov
+  have hb : 1 ≤ 1 + h * h := by nlinarith [mul_self_nonneg h]
+  have hp := powQ_pos (1 + h * h) (by linarith) a
+  have h1 := powQ_ge_one (1 + h * h) hb a
+  exact ⟨by positivity, by rw [div_le_one hp]; exact h1⟩
+
+/-- polynomial factor of the half-integer Matern correlations: equals 1 at the origin (so that
+`C(0) = 1`) and is at least 1 beyond -/
+theorem maternHalfPoly_spec (k : Nat) (h p : Q) (h0 : 0 ≤ h) (hp : maternHalfPoly k h = some p) :
+    1 ≤ p ∧ (h = 0 → p = 1) := by
+  unfold maternHalfPoly at hp
+  split at hp <;> simp at hp <;> subst hp
+  · exact ⟨le_refl _, fun _ => rfl⟩
+  · exact ⟨by linarith, fun e => by rw [e]; norm_num⟩
+  · exact ⟨by nlinarith [mul_self_nonneg h], fun e => by rw [e]; norm_num⟩
+
 end GstProofs.C03
